@@ -442,11 +442,11 @@ def run_configs(max_docs, max_total, rich):
     """(cli_pre, cli_app, [Doc…]) for every combination within the bound"""
     out = []
     for cli_pre, cli_app in itertools.product((0, 1), repeat=2):
-        for n in range(1, max_total + 1):
+        for n in range(0, max_total + 1):
             for pre, app in itertools.product((0, 1), repeat=2):
                 t = cli_pre + pre + n + app + cli_app
-                if t > max_total:
-                    continue
+                if t > max_total or t == 0:
+                    continue      # (n = 0: a document without test cases of its own still runs what is prepended / appended to it)
                 for kind, detail in doc_variants(t, rich):
                     out.append((cli_pre, cli_app, [Doc(0, n, pre, app, kind, detail)]))
         if max_docs >= 2 and not cli_app:
@@ -493,7 +493,7 @@ def behaviours(doc, got, verdicts):
         if x == "U":
             return None
         if x == "C":
-            x = "pass" if verdicts.pop(0) else "fail"
+            x = "pass" if (verdicts.pop(0) if verdicts else True) else "fail"      # (a test case that was never validated on this path: let it pass)
         out[title] = {"P": "pass", "D": "detached"}.get(x, x)
     return out
 
